@@ -318,3 +318,19 @@ package meta
 //@ func adjustForAnchors
 //@   props C17
 //@   ensures pf == nil ==> result0 == nil
+
+// ---- C19: reverse-suffix searchers ----
+// the matchStartZero shortcut ("from the start of the line to the last suffix on it") is the match only for exactly
+// .*literal with a greedy `.` that stops at newlines and a short case-sensitive literal without a newline
+//@ func isDotStarLiteral
+//@   props C19
+//@   opt elems_nonnil=regexp/syntax.Regexp
+//@   requires re != nil
+//@   ghost core = re
+//@   loop 1: invariant re != nil
+//@   loop 1: exit ghost core = re
+//@   ensures result ==> core != nil && core.Op == 18 && len(core.Sub) == 2 && core.Sub[0].Op == 14 && (core.Sub[0].Flags & 32) == 0 && len(core.Sub[0].Sub) == 1 && core.Sub[0].Sub[0].Op == 5 && core.Sub[1].Op == 3 && (core.Sub[1].Flags & 1) == 0 && 1 <= len(core.Sub[1].Rune) && len(core.Sub[1].Rune) <= 16
+//@   ensures result ==> (forall k :: 0 <= k && k < len(core.Sub[1].Rune) ==> core.Sub[1].Rune[k] != 10)
+//@   loop 2: invariant -1 <= rangeindex && rangeindex < rangelen && rangelen == len(lit.Rune) && lit == core.Sub[1] && lit != nil && (forall k :: 0 <= k && k <= rangeindex ==> lit.Rune[k] != 10)
+//@   loop 2: invariant core != nil && core.Op == 18 && len(core.Sub) == 2 && core.Sub[0].Op == 14 && (core.Sub[0].Flags & 32) == 0 && len(core.Sub[0].Sub) == 1 && core.Sub[0].Sub[0].Op == 5 && core.Sub[1].Op == 3 && (core.Sub[1].Flags & 1) == 0 && 1 <= len(core.Sub[1].Rune) && len(core.Sub[1].Rune) <= 16
+//@   loop 2: decreases rangelen - rangeindex
